@@ -23,8 +23,10 @@ def sgn (x : Rat) : Int := if x > 0 then 1 else if x = 0 then 0 else -1
     equal, `-1.0 * x` otherwise (so `Sign(t, 0) = -t` for `t > 0`, unlike NR's SIGN). -/
 def sign2 (x y : Rat) : Rat := if sgn x = sgn y then x else -x
 
-/-- relative size of `d` against the scale `s` (a sum of absolute values); 0 if `s = 0` -/
-def mg (d s : Rat) : Rat := if s = 0 then 0 else rabs d / s
+/-- relative size of `d` against the scale `s` (a sum of absolute values).  An exact tie
+    (`d = 0`) counts as a healthy margin: in the C++ it is a comparison of bit-identical doubles
+    (copies of one value, or operands that cancel exactly), which rounding does not perturb. -/
+def mg (d s : Rat) : Rat := if d = 0 ∨ s = 0 then 1 else rabs d / s
 
 /-- margin of a comparison of `a` with `b` / cancellation ratio of `a - b` -/
 def mc (a b : Rat) : Rat := mg (a - b) (rabs a + rabs b)
@@ -38,20 +40,35 @@ def log2floor (x : Rat) : Int :=
   let e0 : Int := (Nat.log2 x.num.toNat : Int) - (Nat.log2 x.den : Int)
   if x < pow2 e0 then e0 - 1 else e0
 
+/-- `n / d` scaled by `2^sh` (`sh` may be negative): quotient and remainder with the divisor -/
+def scaledDiv (n d : Nat) (sh : Int) : Nat × Nat × Nat :=
+  let n' := if sh ≥ 0 then n <<< sh.toNat else n
+  let d' := if sh ≥ 0 then d else d <<< (-sh).toNat
+  (n' / d', n' % d', d')
+
+/-- `m * 2^k` as a rational -/
+def dyadicRat (m : Int) (k : Int) : Rat :=
+  if k ≥ 0 then ((m * ((2 : Int) ^ k.toNat) : Int) : Rat) else mkRat m (2 ^ (-k).toNat)
+
 /-- IEEE-754 binary64 round-to-nearest-even of a rational (gradual underflow modelled,
-    overflow not: the driver answers `undef` when magnitudes leave the safe range). -/
+    overflow not: the driver answers `undef` when magnitudes leave the safe range).
+    Integer arithmetic: with `e = ⌊log₂|x|⌋` (clamped at -1022) the quotient
+    `⌊|x| / 2^(e-52)⌋` and its remainder decide the rounding. -/
 def rndD (x : Rat) : Rat :=
-  if x = 0 then 0 else
-  let ax := rabs x
-  let e0 := log2floor ax
-  let e := if e0 < -1022 then -1022 else e0
-  let q := pow2 (e - 52)
-  let t := ax / q
-  let fl : Int := t.floor
-  let r := t - (fl : Rat)
-  let n : Int := if r < 1/2 then fl else if r > 1/2 then fl + 1 else (if fl % 2 = 0 then fl else fl + 1)
-  let v := (n : Rat) * q
-  if x < 0 then -v else v
+  if x.num = 0 then 0 else
+  let n := x.num.natAbs
+  let d := x.den
+  let e0 : Int := (Nat.log2 n : Int) - (Nat.log2 d : Int)
+  -- true exponent is e0 or e0 - 1
+  let q0 := scaledDiv n d (52 - e0)
+  let e1 : Int := if q0.1 < 2 ^ 52 then e0 - 1 else e0
+  let e : Int := if e1 < -1022 then -1022 else e1
+  let q := if e = e0 then q0 else scaledDiv n d (52 - e)
+  let fl := q.1
+  let r2 := 2 * q.2.1
+  let m : Nat := if r2 < q.2.2 then fl else if r2 > q.2.2 then fl + 1 else (if fl % 2 = 0 then fl else fl + 1)
+  let v := dyadicRat (m : Int) (e - 52)
+  if x.num < 0 then -v else v
 
 /-! ## constants of the source (decimal literals; the model rounds them with `rnd` where the
     compiler rounds the literal) -/
@@ -191,38 +208,54 @@ def brentInit (s : Br) : Bt × List Ev :=
   ({ a := a, b := b, d := 0, e := 0, x := s.bx, w := s.bx, v := s.bx, fx := fx, fw := fx, fv := fx, pm := 1 },
    [(s.bx, rmin s.pm (mc s.ax s.cx))])
 
-/-- the trial step `d` (and the new `e`) of one iteration, with its margin -/
-def brentTrial (s : Bt) (xm tol1 tol2 : Rat) : Rat × Rat × Rat :=
-  let golden : Rat × Rat × Rat :=
-    let e' := if s.x ≥ xm then rnd (s.a - s.x) else rnd (s.b - s.x)
-    (rnd (rnd CGOLD * e'), e', mc s.x xm)
+/-- golden-section step into the larger of the two parts: `(d, e)` -/
+def goldenStep (s : Bt) (xm : Rat) : Rat × Rat :=
+  let e' := if s.x ≥ xm then rnd (s.a - s.x) else rnd (s.b - s.x)
+  (rnd (rnd CGOLD * e'), e')
+
+/-- the parabola through `(x,fx), (w,fw), (v,fv)`: sign-adjusted numerator `p`, absolute
+    denominator `q` (lines 729–735), and the cancellation margin of the fit -/
+def parabPQ (s : Bt) : Rat × Rat × Rat :=
+  let r := rnd (rnd (s.x - s.w) * rnd (s.fx - s.fv))
+  let q := rnd (rnd (s.x - s.v) * rnd (s.fx - s.fw))
+  let t1 := rnd (rnd (s.x - s.v) * q)
+  let t2 := rnd (rnd (s.x - s.w) * r)
+  let p := rnd (t1 - t2)
+  let q2 := rnd (2 * rnd (q - r))
+  (if q2 > 0 then -p else p, rabs q2, mins [mc s.fx s.fv, mc s.fx s.fw, mc q r, mc t1 t2])
+
+/-- the trial step `d` and the new `e` of one iteration (lines 727–749) -/
+def brentDE (s : Bt) (xm tol1 tol2 : Rat) : Rat × Rat :=
   if rabs s.e > tol1 then
-    let r := rnd (rnd (s.x - s.w) * rnd (s.fx - s.fv))
-    let q := rnd (rnd (s.x - s.v) * rnd (s.fx - s.fw))
-    let t1 := rnd (rnd (s.x - s.v) * q)
-    let t2 := rnd (rnd (s.x - s.w) * r)
-    let p := rnd (t1 - t2)
-    let q2 := rnd (2 * rnd (q - r))
-    let p' := if q2 > 0 then -p else p
-    let q3 := rabs q2
-    let etemp := s.e
-    let c1 := rabs (rnd (rnd ((1/2) * q3) * etemp))
-    let c2 := rnd (q3 * rnd (s.a - s.x))
-    let c3 := rnd (q3 * rnd (s.b - s.x))
-    let m := mins [mc (rabs s.e) tol1, mc s.fx s.fv, mc s.fx s.fw, mc q r, mc t1 t2,
-                   mc (rabs p') c1, mc p' c2, mc p' c3]
-    if rabs p' ≥ c1 ∨ p' ≤ c2 ∨ p' ≥ c3 then
-      -- e = d happened before; then e is overwritten by the golden-section choice
-      (golden.1, golden.2.1, rmin m golden.2.2)
+    let pq := parabPQ rnd s
+    if rabs pq.1 ≥ rabs (rnd (rnd ((1/2) * pq.2.1) * s.e)) ∨ pq.1 ≤ rnd (pq.2.1 * rnd (s.a - s.x)) ∨
+        pq.1 ≥ rnd (pq.2.1 * rnd (s.b - s.x)) then
+      -- `e = d` happened before; then `e` is overwritten by the golden-section choice
+      goldenStep rnd s xm
     else
-      let d := rnd (p' / q3)
+      let d := rnd (pq.1 / pq.2.1)
       let u := rnd (s.x + d)
-      let ua := rnd (u - s.a)
-      let bu := rnd (s.b - u)
-      if ua < tol2 ∨ bu < tol2 then
-        (sign2 tol1 (rnd (xm - s.x)), s.d, mins [m, mc ua tol2, mc bu tol2, mc xm s.x])
-      else (d, s.d, mins [m, mc ua tol2, mc bu tol2])
-  else (golden.1, golden.2.1, rmin (mc (rabs s.e) tol1) golden.2.2)
+      if rnd (u - s.a) < tol2 ∨ rnd (s.b - u) < tol2 then (sign2 tol1 (rnd (xm - s.x)), s.d)
+      else (d, s.d)
+  else goldenStep rnd s xm
+
+/-- smallest margin of the decisions and cancellations inside `brentDE` -/
+def brentMargin (s : Bt) (xm tol1 tol2 : Rat) : Rat :=
+  if rabs s.e > tol1 then
+    let pq := parabPQ rnd s
+    let c1 := rabs (rnd (rnd ((1/2) * pq.2.1) * s.e))
+    let c2 := rnd (pq.2.1 * rnd (s.a - s.x))
+    let c3 := rnd (pq.2.1 * rnd (s.b - s.x))
+    let m := mins [mc (rabs s.e) tol1, pq.2.2, mc (rabs pq.1) c1, mc pq.1 c2, mc pq.1 c3]
+    if rabs pq.1 ≥ c1 ∨ pq.1 ≤ c2 ∨ pq.1 ≥ c3 then rmin m (mc s.x xm)
+    else
+      let u := rnd (s.x + rnd (pq.1 / pq.2.1))
+      mins [m, mc (rnd (u - s.a)) tol2, mc (rnd (s.b - u)) tol2, mc xm s.x]
+  else rmin (mc (rabs s.e) tol1) (mc s.x xm)
+
+/-- the trial step `d`, the new `e`, and the margin -/
+def brentTrial (s : Bt) (xm tol1 tol2 : Rat) : Rat × Rat × Rat :=
+  ((brentDE rnd s xm tol1 tol2).1, (brentDE rnd s xm tol1 tol2).2, brentMargin rnd s xm tol1 tol2)
 
 inductive BtStep where
   | stop (m : Rat)            -- the convergence test fired (return `x`); margin of that test
